@@ -113,7 +113,7 @@ def diffs(ctx, shard, nshards):
     L = leaps(ctx)
     rnd = random.Random(ctx.sub_seed("c14d", shard))
     leap_rows = [t for t, _ in L.rows[1:]]
-    for it in range(500 if not ctx.thorough else 6000):
+    for it in range(1500 if not ctx.thorough else 8000):
         # operands are (epoch, is60); is60 = the inserted second 23:59:60 that ends at a listed instant
         def pick(k):
             out = [(t, False) for t in _near_instants(L, rnd, k)]
@@ -174,7 +174,7 @@ def adds(ctx, shard, nshards):
     L = leaps(ctx)
     rnd = random.Random(ctx.sub_seed("c14a", shard))
     rows = L.rows[1:]
-    for it in range(500 if not ctx.thorough else 6000):
+    for it in range(1500 if not ctx.thorough else 8000):
         # whole years +- a few seconds cross several insertions and land next to another one
         n = rnd.choice(list(range(1, 81)) + [3600, 86400, 86401, 31536000, 10 ** 8] +
                        [y * 31536000 + k for y in (1, 2, 3) for k in (-3, -2, -1, 1, 2, 3)] +
